@@ -111,6 +111,9 @@ pub fn show_err(e: &Error) -> String {
     format!("err {} {}", kind_name(e.kind()), msg_class(e))
 }
 
+static DEADLINE: std::sync::atomic::AtomicU64 = std::sync::atomic::AtomicU64::new(0);
+static WATCHDOG: std::sync::Once = std::sync::Once::new();
+
 pub struct Sink {
     cases: BufWriter<File>,
     obs: BufWriter<File>,
@@ -147,6 +150,30 @@ impl Sink {
         if let Some(dir) = &self.dir {
             let _ = std::fs::write(format!("{}/current.txt", dir), case);
         }
+    }
+    /// like `announce`, with a time limit: if the case is still running after `secs` seconds the
+    /// process exits with status 98 (the announced case is then reported as not terminating in
+    /// bounded time).  `done` lifts the limit.
+    pub fn announce_timed(&mut self, case: &str, secs: u64) {
+        self.announce(case);
+        let now = std::time::SystemTime::now().duration_since(std::time::UNIX_EPOCH).unwrap().as_millis() as u64;
+        DEADLINE.store(now + secs * 1000, std::sync::atomic::Ordering::SeqCst);
+        WATCHDOG.call_once(|| {
+            std::thread::spawn(|| loop {
+                std::thread::sleep(std::time::Duration::from_millis(100));
+                let d = DEADLINE.load(std::sync::atomic::Ordering::SeqCst);
+                if d != 0 {
+                    let now = std::time::SystemTime::now().duration_since(std::time::UNIX_EPOCH).unwrap().as_millis() as u64;
+                    if now > d {
+                        eprintln!("harness: time limit exceeded on the announced case");
+                        std::process::exit(98);
+                    }
+                }
+            });
+        });
+    }
+    pub fn done(&mut self) {
+        DEADLINE.store(0, std::sync::atomic::Ordering::SeqCst);
     }
     /// the property evaluated directly on the implementation
     pub fn oracle(&mut self, prop: &str, ok: bool, case: &str, detail: &str) {
